@@ -23,54 +23,61 @@ VARIABLES
   dma,      \* live DMA regions: allocation sequence number |-> pages
   phase,    \* "run" | "panicked" | "stuck" | "dropped"
   pending,  \* name of the call in progress, or "none"
-  live      \* the device has been told DRIVER_OK and has not been reset since
+  live,     \* the device has been told DRIVER_OK and has not been reset since
+  rx        \* console: receive buffers the driver has posted and not taken back
 
-avars == <<dma, phase, pending, live>>
+avars == <<dma, phase, pending, live, rx>>
 
-AInit == dma = <<>> /\ phase = "run" /\ pending = "none" /\ live = FALSE
-AReset == dma' = <<>> /\ phase' = "run" /\ pending' = "none" /\ live' = FALSE
+AInit == dma = <<>> /\ phase = "run" /\ pending = "none" /\ live = FALSE /\ rx = 0
+AReset == dma' = <<>> /\ phase' = "run" /\ pending' = "none" /\ live' = FALSE /\ rx' = 0
+
+\* The console driver owns one receive buffer and posts it at most once at a time, whatever ids
+\* the device reports: a completion it refuses (WrongToken) leaves the buffer posted, so it must
+\* not be posted again - that would be the same memory under two tokens.
+RxPost == rx = 0 /\ rx' = 1 /\ UNCHANGED <<dma, phase, pending, live>>
+RxTake == rx = 1 /\ rx' = 0 /\ UNCHANGED <<dma, phase, pending, live>>
 
 \* a write of the status register as the device saw it
 Status(driverOk, reset) ==
   /\ live' = IF reset THEN FALSE ELSE (live \/ driverOk)
-  /\ UNCHANGED <<dma, phase, pending>>
+  /\ UNCHANGED <<dma, phase, pending, rx>>
 
 DmaAlloc(seq, pages, failed) ==
   /\ seq \notin DOMAIN dma
   /\ dma' = IF failed THEN dma ELSE (seq :> pages) @@ dma
-  /\ UNCHANGED <<phase, pending, live>>
+  /\ UNCHANGED <<phase, pending, live, rx>>
 
 \* released exactly once, and exactly as allocated
 DmaDealloc(seq, known, vaOk, pagesOk, apOk) ==
   /\ known /\ vaOk /\ pagesOk /\ apOk
   /\ seq \in DOMAIN dma
   /\ dma' = [s \in DOMAIN dma \ {seq} |-> dma[s]]
-  /\ UNCHANGED <<phase, pending, live>>
+  /\ UNCHANGED <<phase, pending, live, rx>>
 
 \* the driver object is only used while it is alive
 Call(o) ==
   /\ phase = "run" /\ pending = "none"
   /\ pending' = o
-  /\ UNCHANGED <<dma, phase, live>>
+  /\ UNCHANGED <<dma, phase, live, rx>>
 Ret ==
   /\ phase = "run" /\ pending # "none"
   /\ pending' = "none"
-  /\ UNCHANGED <<dma, phase, live>>
+  /\ UNCHANGED <<dma, phase, live, rx>>
 
 \* a panic is acceptable only if it is one of the crate's own checks
 Panic(clean) ==
   /\ clean
   /\ phase \in {"run", "panicked"}         \* (a second panic while unwinding would abort)
   /\ phase' = "panicked" /\ pending' = "none"
-  /\ UNCHANGED <<dma, live>>
+  /\ UNCHANGED <<dma, live, rx>>
 Stuck ==
   /\ phase = "run"
   /\ phase' = "stuck" /\ pending' = "none"
-  /\ UNCHANGED <<dma, live>>
+  /\ UNCHANGED <<dma, live, rx>>
 Drop ==
   /\ phase = "run" /\ pending = "none"
   /\ phase' = "dropped"
-  /\ UNCHANGED <<dma, pending, live>>
+  /\ UNCHANGED <<dma, pending, live, rx>>
 
 \* a slice handed to the caller lies inside the region backing it (both in pages)
 Slice(lenPages, capPages) ==
